@@ -30,7 +30,7 @@ def run_lexdrv(binary, tables, cases):
         L.append("P %s %s\n" % (tid, " ".join("%d:%s" % (1 if sk else 0, hexs(s)) for s, sk in pats)))
     for tid, inp in cases:
         L.append("C %s %s\n" % (tid, hexs(inp)))
-    p = vlib.sh([binary], input="".join(L), check=False, timeout=600)
+    p = vlib.sh([binary], input="".join(L), check=False, timeout=2400)
     if p.returncode != 0:
         raise vlib.BuildBroken("lexdrv failed: " + p.stdout[-1500:])
     out = p.stdout.rstrip("\n").split("\n") if cases else []
